@@ -130,7 +130,19 @@ def small_models(n=5, seed=0):
     return lsl.GraphBuilder().add(yvar).build_model()
 
 
-def capture(model_validation, max_iter, patience, batch_size=None, **kw):
+def two_param_model(n=5):
+    import liesel.model as lsl
+    import tensorflow_probability.substrates.jax.distributions as tfd
+    x = jax.random.normal(jax.random.PRNGKey(7), (n,))
+    slope = lsl.param(0.0, name="slope")
+    intercept = lsl.param(0.0, name="intercept")
+    xvar = lsl.obs(x, name="x")
+    mu = lsl.Var(lsl.Calc(lambda a, b, xx: a + b * xx, intercept, slope, xvar), name="mu")
+    yvar = lsl.obs(0.5 + 1.2 * x, lsl.Dist(tfd.Normal, loc=mu, scale=1.0), name="y")
+    return lsl.GraphBuilder().add(yvar).build_model()
+
+
+def capture(model_validation, max_iter, patience, batch_size=None, model=None, params=("coef",), **kw):
     """run optim_flat's pre-loop part for real; return its frame locals and (cond, body, init)"""
     import liesel.goose as gs
     import liesel.goose.optim as optim
@@ -139,11 +151,11 @@ def capture(model_validation, max_iter, patience, batch_size=None, **kw):
     def fake_while(cond_fun, body_fun, init_val):
         raise Capture(cond_fun, body_fun, init_val)
     stopper = gs.Stopper(max_iter=max_iter, patience=patience)
-    model = small_models()
+    model = model if model is not None else small_models()
     mval = model_validation(model) if model_validation else None
     optim.jax.lax.while_loop = fake_while
     try:
-        gs.optim_flat(model, params=["coef"], stopper=stopper, model_validation=mval, progress_bar=False,
+        gs.optim_flat(model, params=list(params), stopper=stopper, model_validation=mval, progress_bar=False,
                       batch_size=batch_size, batch_seed=1, **kw)
     except Capture as c:
         tb = sys.exc_info()[2]
@@ -249,6 +261,42 @@ def postloop_obligations(chk, with_validation, prune, restore, MAXIT, PAT, WI):
                                                                                                             observed=dict(problems=problems[:6])))
     chk.extra.setdefault("history_checks", []).append(dict(scenario=tag, rows_checked=int(hv.shape[0] + ht.shape[0] + hp.shape[0])))
     return obs, enc
+
+
+def two_param_obligation(chk, MAXIT, PAT, WI):
+    """two optimised parameters listed in non-alphabetical order: the restored position pairs every NAME with its own recorded history"""
+    import copy
+    loc, cap = capture(None, MAXIT, PAT, model=two_param_model(), params=("slope", "intercept"), restore_best_position=True)
+    post, names, nst = post_slice(loc)
+    stopper_obj = loc["stopper"]
+    pat = stopper_obj.patience
+
+    def run(lt, hs, hi, cs, ci):
+        env = dict(loc)
+        env["stopper"] = copy.copy(stopper_obj)
+        env["stopper"].patience = pat
+        val = dict(loc["init_val"])
+        val["while_i"] = WI
+        # what lax.while_loop hands back: dict pytrees rebuilt with their keys in sorted order
+        val["history"] = jax.tree_util.tree_map(lambda a: a, {"loss_train": lt, "loss_validation": lt, "position": {"slope": hs, "intercept": hi}})
+        val["position"] = jax.tree_util.tree_map(lambda a: a, {"slope": cs, "intercept": ci})
+        env["val"] = val
+        r = post(**{a: env[a] for a in names})
+        return dict(slope=r.position["slope"], intercept=r.position["intercept"], ibest=jnp.asarray(r.iteration_best),
+                    s_state=r.model_state["slope_value"].value, i_state=r.model_state["intercept_value"].value)
+    lt, hs, hi = sym_array("tp_lt", (MAXIT,)), sym_array("tp_hs", (MAXIT,)), sym_array("tp_hi", (MAXIT,))
+    cs, ci = z3.Real("tp_cs"), z3.Real("tp_ci")
+    sc = lambda v: np.array(v, dtype=object).reshape(())
+    enc = chk.note_enc(Enc(f"optim_flat post-loop slice [params=['slope','intercept'], iter={WI}]", run,
+                           (jnp.arange(MAXIT) * 0.2, jnp.arange(MAXIT) * 0.1, jnp.arange(MAXIT) * -0.3, 0.4, 0.6), (lt, hs, hi, sc(cs), sc(ci))))
+
+    def goal(V):
+        ib = cells(V.out["ibest"])[0]
+        o = {k: cells(V.out[k])[0] for k in ("slope", "intercept", "s_state", "i_state")}
+        return [], z3.And(ib >= 0, ib < MAXIT, *[z3.Implies(ib == r_, z3.And(o["slope"] == hs[r_], o["intercept"] == hi[r_])) for r_ in range(MAXIT)],
+                          o["s_state"] == o["slope"], o["i_state"] == o["intercept"])
+    return [Obligation("optim_flat[params=['slope','intercept'] (not alphabetical), restore]: every parameter gets ITS OWN recorded value at the best iteration, and the model state agrees", [enc], goal,
+                       signature="optim:position:two-params")], enc
 
 
 # ------------------------------------------------------------------ loop body: fresh minibatches
@@ -415,6 +463,10 @@ def main():
             obs += o
             chk.validated_points += enc.validate(chk.rng, npoints=1)
     chk.functions += ["liesel.goose.optim.optim_flat (pre-loop part executed, statements after the while_loop sliced from the source and traced)"]
+    res = chk.guarded("two-params:trace", "tracing the post-loop slice with two parameters", two_param_obligation, chk, MAXIT, PAT, wis[-1])
+    if res:
+        obs += res[0]
+        chk.validated_points += res[1].validate(chk.rng, npoints=1)
     loop_body_check(chk)
     batch_indices_check(chk)
     chk.run(obs)
